@@ -14,20 +14,49 @@ class FaultyFile:
     def __enter__(self): return self
     def __exit__(self, *a): self.f.close(); return False
 
-def gen_req(rng, nodes):
+def tmp_name(name, tok):
+    """the name FileUploadHandler gives its temporary file for a target called `name`"""
+    return ".%s.%s.tmp" % (name, tok)
+
+def gen_req(rng, nodes, tok):
+    """-> (path, size, mime, token, content, extra): extra = nodes added to the tree for this request only"""
     inside = [rel[len("root/"):] for rel, k, p in nodes if rel.startswith("root/")]
+    real_dirs = [""] + [rel[len("root/"):] + "/" for rel, k, p in nodes if rel.startswith("root/") and k == "d"]
+    extra = []
     k = rng.random()
-    if inside and k < 0.55:
+    if k < 0.08:
+        # (a) the target's name is 230..256 bytes long: from 234 on the temporary name ".<name>.<16 hex>.tmp" exceeds NAME_MAX
+        n = rng.choice([230, 232, 233, 234, 235, 240, 254, 255, 256])
+        name = rng.choice(["n" * n, "é" * (n // 2) + "x" * (n % 2), "m" * (n - 4) + ".gmi"])
+        path = "/" + rng.choice(real_dirs + ["", "newdir/"]) + name
+    elif k < 0.14:
+        # (b) an over-long last component below directories that do not exist yet (they are created before the failure)
+        path = "/" + rng.choice(real_dirs) + rng.choice(["p/q/", "p/", "a/b/c/", ""]) + "n" * rng.choice([256, 300])
+    elif k < 0.24:
+        # (c) something already carries the temporary name: it must survive and the upload must fail
+        d = rng.choice(real_dirs)
+        name = rng.choice(["new.txt", "a", "b.gmi", "noext", "é.txt"])
+        path = "/" + d + name
+        kind = rng.random()
+        rel = "root/" + d + tmp_name(name, tok)
+        if kind < 0.7: extra = [(rel, "f", b"SENTINEL-TMPNAME-in-the-way")]
+        elif kind < 0.85: extra = [(rel, "d", None)]
+        else: extra = [(rel, "l", "missing-target")]
+        if rng.random() < 0.3: extra.append(("root/" + d + name, "f", b"SENTINEL-old-content"))
+    elif inside and k < 0.62:
         path = rng.choice(fstree.spellings(rng, rng.choice(inside)))
-    elif k < 0.8:
+    elif k < 0.84:
         path = "/" + "/".join(rng.choice(["new.txt", "d/new.gmi", "a/b/c.txt", "sub/x", "é.txt", "sp ace.txt", "up%20load.txt", "..", ".", ""]) for _ in range(rng.randint(1, 2)))
     else:
         path = rng.choice(["/", "", "/../rootx/planted.txt", "/../outside/planted.txt", "/%2e%2e/outside/p.txt", "/..%2Foutside%2Fp.txt", "//etc/passwd", "/\x00x", "/" + "n" * 300])
+    used = set(rel for rel, kk, pp in nodes)
+    extra = [e for e in extra if e[0] not in used]
     size = rng.choice([0, 0, 1, 3, MAXSZ - 1, MAXSZ, MAXSZ + 1])
+    if extra or k < 0.14: size = rng.choice([1, 3, MAXSZ, 0])
     content = bytes(rng.randrange(256) for _ in range(size))
     token = rng.choice(["good", "good", "good", "good", None, "bad", ""])
     mime = rng.choice(["text/gemini", "text/plain", "image/png"])
-    return path, size, mime, token, content
+    return path, size, mime, token, content, extra
 
 def run(tier, seed):
     setup_impl()
@@ -36,25 +65,38 @@ def run(tier, seed):
     from urllib.parse import unquote
     rng = random.Random(seed)
     res = Result()
-    res.rule = ("generated upload trees (symlinks to outside, prefix-sharing sibling, loops, existing directories and files) x upload paths (traversal spellings, the root itself, "
-                "directory names, 300-byte names, NUL) x sizes around the limit x token none/good/bad/empty x media-type lists x delete on/off x injected faults (ENOSPC after k "
-                "bytes of the write, failing rename); non-trivial = distinct (tree, request, configuration, fault)")
+    res.rule = ("generated upload trees (symlinks to outside, prefix-sharing sibling, loops, over-long link targets, existing directories and files) x upload paths (traversal "
+                "spellings, the root itself, directory names, names of 230..256 and 300 bytes with and without missing parent directories, NUL, a file / directory / dangling link "
+                "that already carries the temporary file's name) x sizes around the limit x token none/good/bad/empty x media-type lists x delete on/off x injected faults (ENOSPC "
+                "after k bytes of the write, failing rename); secrets.token_hex is replaced by a known value per case and given to the model; non-trivial = distinct (tree, request, "
+                "configuration, fault)")
     tmp = scratch_dir("nv-c14-")
     ntrees = 50 if tier == "quick" else 800
     per_tree = 25 if tier == "quick" else 40
     mcases, meta = [], []
+    # the random part of the temporary file's name: the handler module's `secrets` is replaced by a stand-in whose token_hex
+    # returns the value chosen for the case (the model takes the same value as its `tok` argument)
+    cur_tok = [None]
+    real_secrets = hm.secrets
+    def known_token_hex(n=None):
+        assert n == 8, "the handler asks for token_hex(%r), the model assumes 8 bytes" % (n,)
+        return cur_tok[0]
+    hm.secrets = types.SimpleNamespace(token_hex=known_token_hex)
     try:
         real_tmp = os.path.realpath(tmp)
         for ti in range(ntrees):
-            nodes = fstree.gen_tree(rng, max_nodes=8)
+            tree_nodes = fstree.gen_tree(rng, max_nodes=8)
             for ri in range(per_tree):
+                tok = "%016x" % rng.getrandbits(64)
+                cur_tok[0] = tok
+                path, size, mime, token, content, extra = gen_req(rng, tree_nodes, tok)
+                nodes = tree_nodes + extra
                 fstree.clear(real_tmp); fstree.build(real_tmp, nodes)
                 up = os.path.join(real_tmp, "root")
                 tokens = rng.choice([None, ["good"], ["good", "other"]])
                 types_ = rng.choice([None, None, ["text/gemini", "text/plain"]])
                 delete = rng.random() < 0.6
                 h = hm.FileUploadHandler(up, max_size=MAXSZ, allowed_types=types_, auth_tokens=set(tokens) if tokens else None, enable_delete=delete)
-                path, size, mime, token, content = gen_req(rng, nodes)
                 req = None
                 try:
                     line = "titan://h" + path + ";size=%d;mime=%s" % (size, mime) + (";token=" + token if token is not None else "")
@@ -96,12 +138,22 @@ def run(tier, seed):
                     if fault and fault[0] == "rlimit":
                         resource.setrlimit(resource.RLIMIT_FSIZE, old_lim); signal.signal(signal.SIGXFSZ, old_sig)
                 after = fstree.snapshot(real_tmp)
-                # what the path denotes, by the operating system
+                # what the path denotes: dot segments are removed as URL syntax (RFC 3986 5.2.4: lexically, ".." above the
+                # root denotes nothing here), then the operating system resolves the symbolic links.  (Resolving ".."
+                # physically, after following a symlinked directory, is not what a URL path means: it made this referee
+                # disagree with a correct upload to /pub/<link>/x/../../new/file - a false alarm of the thorough tier.)
                 try:
-                    dec_path = unquote(req.path).lstrip("/")
-                    if "\x00" in dec_path: target = []
+                    dec_path = unquote(req.path)
+                    segs, climbs = [], False
+                    for sg_ in dec_path.split("/"):
+                        if sg_ in ("", "."): continue
+                        if sg_ == "..":
+                            if segs: segs.pop()
+                            else: climbs = True; break
+                        else: segs.append(sg_)
+                    if "\x00" in dec_path or climbs: target = []
                     else:
-                        t1 = os.path.realpath(os.path.join(up, dec_path))
+                        t1 = os.path.realpath(os.path.join(up, *segs))
                         target = [fstree.comps(t1)] if os.path.realpath(t1) == t1 else []
                 except (OSError, ValueError):
                     target = []
@@ -110,14 +162,16 @@ def run(tier, seed):
                 base = fstree.comps(real_tmp)
                 ancestors = [[base[:i], ["d"]] for i in range(1, len(base) + 1)]
                 effective_fault = bool(fault) and not (fault[0] == "rlimit" and fault[1] >= len(content))
-                mcases.append(("upload", enc([cfg, ancestors + before, mreq, [1] if effective_fault else []])))
+                mcases.append(("upload", enc([cfg, ancestors + before, mreq, [1] if effective_fault else [], tok])))
                 status = obs[1] if obs[0] == "resp" else 40
                 meta.append((nodes, cfg, mreq, fault, obs, before, after, status, target, line))
                 res.evaluations += 1
                 res.count("status:%s" % (obs[1]))
                 res.count("fault:%s" % (fault[0] if fault else "none"))
+                if extra: res.count("tmpname-taken:%s" % (obs[1],))
                 res.nontriv((ti, ri))
     finally:
+        hm.secrets = real_secrets
         shutil.rmtree(tmp, ignore_errors=True)
     out = run_model_parallel(mcases)
     for (nodes, cfg, mreq, fault, obs, before, after, status, target, line), mo in zip(meta, out):
